@@ -35,6 +35,16 @@ var c04CRS = ref.CmdCfg{
 	WindowsNoSpace: `(?:[,;./<>]|[\w-]\s).*`,
 }
 
+// literal blanks and TABs inside the patterns belong to the patterns
+var c04Blanks = ref.CmdCfg{
+	UnixEvasion:    `[\x5c' ]*`,
+	UnixSuffix:     `(?: |<|>).*`,
+	UnixNoSpace:    `(?:[<> ,]|x y).*`,
+	WindowsEvasion: "[\"\t^]*",
+	WindowsSuffix:  `(?:[ ,;]|/).*`,
+	WindowsNoSpace: `(?:[,; ]|\w ).*`,
+}
+
 func c04YamlPlain(c ref.CmdCfg) string {
 	q := func(s string) string { return "'" + strings.ReplaceAll(s, "'", "''") + "'" }
 	return "patterns:\n  anti_evasion:\n    unix: " + q(c.UnixEvasion) + "\n    windows: " + q(c.WindowsEvasion) +
@@ -58,6 +68,7 @@ func c04Configs() []c04Config {
 		{Name: "dummy-literals", Yaml: sp(c04YamlPlain(dummy)), Cfg: dummy},
 		// keys the tool does not know, anywhere in the file, do not make the known ones go away
 		{Name: "crs-like-unknown-keys", Yaml: sp("version: 2\nmaintainer: 'someone'\n" + strings.Replace(c04YamlPlain(c04CRS), "patterns:\n", "patterns:\n  future_pattern:\n    unix: 'x'\n    bsd: 'y'\n", 1) + "other_section:\n  key: [1, 2]\n"), Cfg: c04CRS},
+		{Name: "patterns-with-blanks-inside", Yaml: sp(c04YamlPlain(c04Blanks)), Cfg: c04Blanks},
 		{Name: "dummy-with-anchors", Yaml: sp("defaults: &d\n  unix: '_av-u_'\n  windows: '_av-w_'\n" + strings.Replace(c04YamlPlain(dummy), "  anti_evasion:\n    unix: '_av-u_'\n    windows: '_av-w_'\n", "  anti_evasion: *d\n", 1)), Cfg: dummy},
 		{Name: "empty-file", Yaml: sp("")},
 		{Name: "only-unix-evasion", Yaml: sp("patterns:\n  anti_evasion:\n    unix: '[q]*'\n"), Cfg: ref.CmdCfg{UnixEvasion: "[q]*"}},
@@ -192,7 +203,7 @@ func C04(r *core.Run) {
 				ws = append(ws, w+e)
 			}
 		})
-		ws = append(ws, "'a.b", "'[ab]+c", "'a b@", "'", "a'b", "ab'", "''q'", "''", "'a'")
+		ws = append(ws, `\@`, `\~`, "@", "~", "'a.b", "'[ab]+c", "'a b@", "'", "a'b", "ab'", "''q'", "''", "'a'")
 		return ws
 	}
 	outs, deaths := core.Parallel(r, "sweep", in{dir, maxLen}, r.Workers, func(in in, shard, n int, emit func(c04Out)) {
